@@ -90,54 +90,74 @@ def eval_val(e, env):
 
 
 def only_trivia(R, ctx):
+    """The three token-level walkers as transfer functions on an abstract token, by finite-domain evaluation (sa/peval.py)."""
+    import itertools
+    import copy
+    from .. import peval
+    from ..peval import Enum, Struct, UNKNOWN
     rid = "C18.only-trivia"
-    R.rule(rid, "Token::{clear_comments,clear_whitespaces,filter_comments} project only the two trivia vectors of `self`, "
-                "call Vec::retain on both, never write `position`, and their predicate keeps every trivia of the other kind")
+    R.rule(rid, "Token::{clear_comments, clear_whitespaces, filter_comments}, evaluated from their typed tree on a token whose leading and "
+                "trailing trivia are every sequence of up to 3 comments/whitespaces: the token's position (its code) is untouched, exactly the "
+                "trivia of the addressed kind disappear (for filter_comments: exactly the comments the configured filter rejects), every other "
+                "trivia survives, in its list and in order")
     lib = ctx.lib
-    expect = {
-        "clear_comments": {"Whitespace": True, "Comment": False},
-        "clear_whitespaces": {"Whitespace": False, "Comment": True},
-        "filter_comments": {"Whitespace": True},
-    }
-    for W, table in expect.items():
+    TRV, KIND, POS = "nodes::token::Trivia", "nodes::token::TriviaKind", "nodes::token::Position"
+
+    def trivia(kind, tag):
+        return Struct(TRV, {"position": Enum(POS, "Any", {"content": tag}), "kind": Enum(KIND, kind)})
+
+    def tags(lst):
+        return [t.fields["position"].fields.get("content") if isinstance(t, Struct) else "?" for t in lst] if isinstance(lst, list) else None
+    seqs = [list(x) for k in range(0, 4) for x in itertools.product(("Comment", "Whitespace"), repeat=k)]
+    for W in ("clear_comments", "clear_whitespaces", "filter_comments"):
         path = "nodes::token::Token::" + W
         fn = lib.fns.get(path)
         if not R.require(rid, "anchor:" + path, fn is not None and thir.body_of(fn), "", "function not found"):
             continue
-        where = ctx.where(fn)
-        fields = set()
-        retained = set()
-        preds = []
-        a = ctx.an.fa(path)
-        for n in thir.walk(thir.body_of(fn)):
-            if n.get("k") == "Field" and n.get("adt") == TOKEN:
-                fields.add(n["f"])
-            if n.get("k") in ("Assign", "AssignOp"):
-                R.ob(rid, "%s|no-assign" % W, False, ctx.where(fn, n.get("ln")), "assignment inside Token::%s" % W)
-            if n.get("k") == "Call" and n.get("fname") in ("retain", "retain_mut"):
-                for o in a.origins(n["args"][0]):
-                    if o[0] == TOKEN:
-                        retained.add(o[1])
-                for arg in n["args"][1:]:
-                    if arg.get("k") == "Closure":
-                        preds.append(arg["body"]["body"])
-            elif n.get("k") == "Call" and n.get("fname") in STD_MUTATORS:
-                R.ob(rid, "%s|mutator:%s" % (W, n["fname"]), False, ctx.where(fn, n.get("ln")),
-                     "Token::%s calls the container mutator `%s` (only `retain` on the trivia vectors is expected)" % (W, n["fname"]))
-        R.ob(rid, "%s|fields" % W, fields == {"leading_trivia", "trailing_trivia"}, where,
-             "fields of Token projected in Token::%s: %s (expected exactly leading_trivia and trailing_trivia)" % (W, sorted(fields)))
-        R.ob(rid, "%s|retain-both" % W, retained == {"leading_trivia", "trailing_trivia"}, where,
-             "Vec::retain is applied to %s" % sorted(retained))
-        R.ob(rid, "%s|two-predicates" % W, len(preds) == 2, where, "%d retain predicates found" % len(preds))
-        for i, p in enumerate(preds):
-            for kind, want in table.items():
-                got = eval_bool(p, {"kind": kind})
-                R.ob(rid, "%s|pred%d|%s" % (W, i, kind), got is want, where,
-                     "retain predicate #%d of Token::%s evaluates to %s for a %s trivia (must be %s)" % (i, W, got, kind, want))
-            if W == "filter_comments":
-                got = eval_bool(p, {"kind": "Comment"})
-                R.ob(rid, "%s|pred%d|Comment-depends-on-filter" % (W, i), got is None, where,
-                     "for a Comment trivia the predicate must depend on the configured filter, got constant %s" % got)
+        bad, n = [], 0
+        rejected_sets = [set()] if W != "filter_comments" else [set(), {"L0", "T1"}, {"L0", "L1", "L2", "T0", "T1", "T2"}]
+        for lead in seqs:
+            for trail in (seqs if len(lead) <= 1 else [[], ["Comment", "Whitespace"]]):
+                for rejected in rejected_sets:
+                    L = [trivia(k, "L%d" % i) for i, k in enumerate(lead)]
+                    T = [trivia(k, "T%d" % i) for i, k in enumerate(trail)]
+                    pos = Enum(POS, "LineNumber", {"line_number": 3, "content": "code"})
+                    tok = Struct(TOKEN, {"position": pos, "leading_trivia": list(L), "trailing_trivia": list(T)})
+                    pos_before = copy.deepcopy(pos)
+
+                    def hook(pe, path_, fname, args, node, rejected=rejected):
+                        return NotImplemented
+                    pe = peval.PEval(lib, ctx.an, hook)
+                    args = [tok]
+                    if W == "filter_comments":
+                        # the configured filter: keeps a comment unless it is in `rejected`
+                        args.append(peval.Native(lambda t, rejected=rejected: t.fields["position"].fields.get("content") not in rejected))
+                    try:
+                        pe.call_fn(fn, args)
+                    except peval.OutOfFuel:
+                        pass
+                    n += 1
+
+                    def want(lst, kinds, prefix):
+                        out = []
+                        for i, k in enumerate(kinds):
+                            tag = "%s%d" % (prefix, i)
+                            if W == "clear_comments" and k == "Comment":
+                                continue
+                            if W == "clear_whitespaces" and k == "Whitespace":
+                                continue
+                            if W == "filter_comments" and k == "Comment" and tag in rejected:
+                                continue
+                            out.append(tag)
+                        return out
+                    gl, gt = tags(tok.fields.get("leading_trivia")), tags(tok.fields.get("trailing_trivia"))
+                    if gl != want(L, lead, "L") or gt != want(T, trail, "T") or tok.fields.get("position") != pos_before:
+                        bad.append((lead, trail, sorted(rejected), gl, gt, tok.fields.get("position") == pos_before, pe.unknown_reasons[:1]))
+        R.ob(rid, "%s|transfer" % W, not bad, ctx.where(fn),
+             "all %d trivia layouts transformed as specified" % n if not bad else
+             "leading %s trailing %s%s -> leading %s trailing %s, position %s %s" % (bad[0][0], bad[0][1], (" filter rejects %s" % bad[0][2]) if bad[0][2] else "", bad[0][3], bad[0][4],
+                                                                                 "kept" if bad[0][5] else "CHANGED", bad[0][6] or ""))
+        R.require(rid, "%s|floor" % W, n >= 30, ctx.where(fn), "%d layouts evaluated" % n)
 
 
 def effects(R, ctx, fams):
